@@ -16,8 +16,8 @@ EXPLANATION = (
     'descendants), GetManagedObjects (exactly the exported objects strictly beneath, each with all interfaces and readable '
     'properties). Every export / unexport must emit InterfacesAdded / InterfacesRemoved naming the path and interfaces. '
     'Operation selectors are finite: the solver contributes exhaustive coverage of the bounded history space.')
-BOUNDS = {'quick': 'pool of 6 paths (/, /a, /a/b, /a/bc, /a/b/c, /b); every history of <= 4 operations; queries at 7 paths x 3 kinds after each history',
-          'thorough': 'every history of <= 5 operations'}
+BOUNDS = {'quick': 'pool of 6 paths (/, /a, /a/b, /a/bc, /a/b/c, /b); every history of <= 3 operations; queries at 7 paths x 3 kinds before, between and after the operations of each history',
+          'thorough': 'every history of <= 4 operations'}
 ASSUMPTIONS = ['one object class (two interfaces, one readable, one write-only property) exported at different paths',
                'unexporting a path that is not exported is API misuse and skipped']
 STUBS = ['recording connection object (sendMessage)']
@@ -29,11 +29,11 @@ NOPS = 2 * len(POOL)
 
 def obligations(tier):
     obs = []
-    kmax = 4 if tier == 'quick' else 5
+    kmax = 3 if tier == 'quick' else 4
     for k in range(1, kmax + 1):
-        if k <= 3:
+        if k <= 2:
             prefixes = [()]
-        elif k == 4:
+        elif k <= 4:
             prefixes = [(a,) for a in range(NOPS)]
         else:
             prefixes = [(a, b) for a in range(NOPS) for b in range(NOPS)]
@@ -119,6 +119,41 @@ def build(family, p):
         conn = W['Conn']()
         handler = objects.DBusObjectHandler(conn)
         exported = set()
+
+        def query_all():
+            for q in QUERY:
+                below = sorted(e for e in exported if e != q and e.startswith(q if q == '/' else q + '/'))
+                kids = sorted({(e[len(q):] if q == '/' else e[len(q) + 1:]).split('/')[0] for e in below})
+                r = call(handler, conn, q, 'NoSuchMember')
+                if q in exported:
+                    check(r._messageType == 3 and r.error_name == 'org.freedesktop.DBus.Error.UnknownMethod',
+                          'exported path must reach its object')
+                else:
+                    check(r._messageType == 3 and r.error_name == 'org.freedesktop.DBus.Error.UnknownObject',
+                          'a path that is not exported must answer UnknownObject')
+                r = call(handler, conn, q, 'Introspect', 'org.freedesktop.DBus.Introspectable')
+                if q in exported or below:
+                    check(r._messageType == 2 and r.signature == 's', 'Introspect must succeed for an object or an inner node')
+                    xml = r.body[0]
+                    got = sorted(re.findall(r'<node name="([^"]*)"/>', xml))
+                    check(got == kids, 'Introspect must list exactly the immediate children')
+                    has_ifaces = 'interface name="org.t.Tree1"' in xml
+                    check(has_ifaces == (q in exported), 'Introspect shows interfaces iff an object is exported there')
+                else:
+                    check(r._messageType == 3, 'Introspect must fail for a path with neither object nor descendants')
+                r = call(handler, conn, q, 'GetManagedObjects', 'org.freedesktop.DBus.ObjectManager')
+                if q in exported:
+                    check(r._messageType == 2, 'GetManagedObjects on an exported path must succeed')
+                    managed = r.body[0]
+                    check(sorted(managed.keys()) == below, 'GetManagedObjects must report exactly the objects strictly beneath')
+                    for path, ifs in managed.items():
+                        check(sorted(ifs.keys()) == sorted(IFACES), 'each managed object lists all its interfaces')
+                        check(ifs['org.t.Tree1'] == {'Name': 'node:' + path}, 'readable properties (only) are reported')
+                else:
+                    check(r._messageType == 3 and r.error_name == 'org.freedesktop.DBus.Error.UnknownObject',
+                          'GetManagedObjects on a path that is not exported must answer UnknownObject')
+
+        query_all()          # queries may leave state behind (caches): ask before, between and after the operations
         for op in ops:
             path = POOL[op % len(POOL)]
             n0 = len(conn.sent)
@@ -130,9 +165,7 @@ def build(family, p):
                       and sigs[0].interface == 'org.freedesktop.DBus.ObjectManager', 'export must announce InterfacesAdded')
                 check(sigs[0].body[0] == path and sorted(sigs[0].body[1].keys()) == sorted(IFACES),
                       'InterfacesAdded must name the object path and its interfaces')
-            else:
-                if path not in exported:
-                    continue
+            elif path in exported:
                 handler.unexportObject(path)
                 exported.discard(path)
                 sigs = conn.sent[n0:]
@@ -140,38 +173,7 @@ def build(family, p):
                       'unexport must announce InterfacesRemoved')
                 check(sigs[0].body[0] == path and sorted(sigs[0].body[1]) == sorted(IFACES),
                       'InterfacesRemoved must name the object path and its interfaces')
-        # ---- queries
-        for q in QUERY:
-            below = sorted(e for e in exported if e != q and e.startswith(q if q == '/' else q + '/'))
-            kids = sorted({(e[len(q):] if q == '/' else e[len(q) + 1:]).split('/')[0] for e in below})
-            r = call(handler, conn, q, 'NoSuchMember')
-            if q in exported:
-                check(r._messageType == 3 and r.error_name == 'org.freedesktop.DBus.Error.UnknownMethod',
-                      'exported path must reach its object')
-            else:
-                check(r._messageType == 3 and r.error_name == 'org.freedesktop.DBus.Error.UnknownObject',
-                      'a path that is not exported must answer UnknownObject')
-            r = call(handler, conn, q, 'Introspect', 'org.freedesktop.DBus.Introspectable')
-            if q in exported or below:
-                check(r._messageType == 2 and r.signature == 's', 'Introspect must succeed for an object or an inner node')
-                xml = r.body[0]
-                got = sorted(re.findall(r'<node name="([^"]*)"/>', xml))
-                check(got == kids, 'Introspect must list exactly the immediate children')
-                has_ifaces = 'interface name="org.t.Tree1"' in xml
-                check(has_ifaces == (q in exported), 'Introspect shows interfaces iff an object is exported there')
-            else:
-                check(r._messageType == 3, 'Introspect must fail for a path with neither object nor descendants')
-            r = call(handler, conn, q, 'GetManagedObjects', 'org.freedesktop.DBus.ObjectManager')
-            if q in exported:
-                check(r._messageType == 2, 'GetManagedObjects on an exported path must succeed')
-                managed = r.body[0]
-                check(sorted(managed.keys()) == below, 'GetManagedObjects must report exactly the objects strictly beneath')
-                for path, ifs in managed.items():
-                    check(sorted(ifs.keys()) == sorted(IFACES), 'each managed object lists all its interfaces')
-                    check(ifs['org.t.Tree1'] == {'Name': 'node:' + path}, 'readable properties (only) are reported')
-            else:
-                check(r._messageType == 3 and r.error_name == 'org.freedesktop.DBus.Error.UnknownObject',
-                      'GetManagedObjects on a path that is not exported must answer UnknownObject')
+            query_all()
     h.__name__ = 'hist'
     base = [(2, 3, 4, 1), (1, 2, 8, 3), (0, 5, 6, 2), (4, 10, 4, 2), (3, 2, 9, 0)]
     wit = [(encode_choice(list(w[:nfree]), [NOPS] * nfree),) for w in base]
